@@ -1146,8 +1146,17 @@ def remove_redundant_transpose_reduce_ir(graph: ir.Graph) -> None:
                     )
                     new_axes_val.const_value = ir.tensor(new_axes_arr)
 
-                    # Register as initializer
-                    graph.initializers.add(new_axes_val)
+                    # A Constant node rather than an initializer: this pass also runs on
+                    # function bodies, which cannot own initializers.
+                    axes_node = ir.Node(
+                        "",
+                        "Constant",
+                        inputs=[],
+                        outputs=[new_axes_val],
+                        attributes=[ir.AttrTensor("value", ir.tensor(new_axes_arr))],
+                        name=f"{new_axes_val.name}_const",
+                    )
+                    graph.insert_before(reducer, axes_node)
 
                     reducer.replace_input_with(axes_input_idx, new_axes_val)
                 else:
